@@ -33,10 +33,25 @@ Definition chk_by_columns (p : string) (n : string) (cols : list scol) (k : stri
   if existsb (fun c => String.eqb (fst k) (build_check_constraint_name (base_table n) (sc_name c))) cols
   then (rename_check_name p (fst k), snd k) else k.
 
+(* Inside the statements of ONE action a CREATE TABLE of a name that ends in "_temp" is the scratch table of a rebuild exactly
+   when the same action later renames it to the name without the suffix; otherwise it is a table the project itself calls
+   "…_temp" (CreateTable "item_temp"), whose enum CHECK names derive from its own full name.  [chk_by_columns] alone cannot
+   tell the two apart; the whole-migration statement below decides per action. *)
+Definition is_rebuild_temp (l : list stmt) (n : string) : bool :=
+  existsb (fun st => match st with
+                     | SRenameTable a b => (String.eqb a n && String.eqb b (base_table n))%bool
+                     | _ => false
+                     end) l.
+Definition chk_own_name (p : string) (n : string) (cols : list scol) (k : string * string) : string * string :=
+  if existsb (fun c => String.eqb (fst k) (build_check_constraint_name n (sc_name c))) cols
+  then (rename_check_name p (fst k), snd k) else k.
+Definition rename_action_stmts (p : string) (l : list stmt) : list stmt :=
+  map (rename_stmt p (fun n cols k => if is_rebuild_temp l n then chk_by_columns p n cols k else chk_own_name p n cols k)) l.
+
 (* model-level statement of C14 for one migration: generating for the literally renamed project = renaming the statements *)
 Definition prefix_agrees (p : string) (s : schema) (acts : list action) : bool :=
   match gen_plan (literal_schema p s) (map (literal_action p) acts), gen_plan s acts with
-  | Ok a, Ok b => dec_b (list_eq_dec (list_eq_dec stmt_eq_dec)) a (map (map (rename_stmt p (chk_by_columns p))) b)
+  | Ok a, Ok b => dec_b (list_eq_dec (list_eq_dec stmt_eq_dec)) a (map (rename_action_stmts p) b)
   | Err GenError, Err GenError | Err GenPanic, Err GenPanic => true
   | _, _ => false
   end.
